@@ -217,6 +217,10 @@ def run(rep: Report, tier: str) -> None:  # noqa: C901
     from sa.checks.c12 import traversal_on_every_path, unknown_resolution
     traversal_on_every_path(P, rep, "R02.7", {"RegularAggregation", "BinOp", "UnaryOp"})
     unknown_resolution(P, rep, "R02.7")
+    # ---- R02.9: the join bookkeeping of a statement does not reach the clauses of the next statement (shared with C04/C12) ----
+    rep.rule("R02.9", "join bookkeeping (_join_alias_map / _consumed_join_aliases) is reset once per statement on every path of visit_Start: a leftover alias decides which "
+                      "columns a later clause keeps, drops or renames")
+    transp.state_discipline(P, rep, "R02.9", only_attrs={"_join_alias_map", "_consumed_join_aliases"}, parts="ab")
     rep.assumptions = ["abstract structures: names and roles only; expressions inside calc/filter are opaque", "SQL: WHERE keeps the rows for which its predicate is TRUE",
                        "inside the clause handlers SQLBuilder is a recording stand-in; that the real class conjoins its where() conditions is decided by R02.5"]
 
